@@ -141,14 +141,47 @@ func canonFuncName(fn *types.Func, name string) string {
 		}
 	}
 	sort.Strings(lost)
-	if len(lost) != 1 {
-		return name
+	if len(lost) == 1 && countNewWithSig(fn, prefix, sig) == 1 {
+		return lost[0]
 	}
-	// uniqueness on the new side
-	if countNewWithSig(fn, prefix, sig) != 1 {
-		return name
+	// a method turned into a plain function taking the receiver first (or the reverse): same name, same
+	// parameters once the receiver is counted as the first one, and the reference form is gone
+	short := name[strings.LastIndex(name, ".")+1:]
+	pkgDir := strings.ReplaceAll(fn.Pkg().Path(), Mod+"/", "")
+	isMethod := strings.HasPrefix(prefix, "(")
+	var conv []string
+	for n, sg := range referenceFuncs {
+		np := n[:strings.LastIndex(n, ".")+1]
+		if n[len(np):] != short || strings.HasPrefix(np, "(") == isMethod {
+			continue
+		}
+		_ = sg // the parameters may have been narrowed with the conversion (the router instead of the muxer)
+		// same package
+		inPkg := np == pkgDir+"." || strings.HasPrefix(np, "(*"+pkgDir+".") || strings.HasPrefix(np, "("+pkgDir+".")
+		if inPkg && !funcStillExists(fn.Pkg(), n, np) {
+			conv = append(conv, n)
+		}
 	}
-	return lost[0]
+	if len(conv) == 1 {
+		return conv[0]
+	}
+	return name
+}
+
+// flatSig rewrites "[R](a, b)(r)" as "(R, a, b)(r)": the signature with the receiver as first parameter.
+func flatSig(sig string) string {
+	if !strings.HasPrefix(sig, "[") {
+		return sig
+	}
+	end := strings.Index(sig, "](")
+	if end < 0 {
+		return sig
+	}
+	recv, rest := sig[1:end], sig[end+2:]
+	if strings.HasPrefix(rest, ")") {
+		return "(" + recv + rest
+	}
+	return "(" + recv + ", " + rest
 }
 
 func funcStillExists(pkg *types.Package, refName, prefix string) bool {
